@@ -307,14 +307,18 @@ Section Pipeline.
   Let W := join_nl ls.
   Hypothesis Hne : ls <> [].
   Hypothesis HF : Forall LineOK ls.
-  Hypothesis Hgot : Plain got.
   Hypothesis Hwant : Plain W.
+  (* got: the text the standard module compares (always ends with the newline that print or the echo wrote);
+     got': the text xdoctest compares - the same words (xdoctest compares an echoed value's repr without that newline) *)
+  Variable got' : str.
+  Hypothesis Hgot : Plain got'.
+  Hypothesis Hsame : words got' = words got.
 
   Let WG := words got.
   Let WW := concat (map words (map demark ls)).
 
-  Lemma ngot_words : NGot default_flags got = join [SP] WG.
-  Proof. unfold NGot. rewrite default_ws_norm, base_got_plain by exact Hgot. reflexivity. Qed.
+  Lemma ngot_words : NGot default_flags got' = join [SP] WG.
+  Proof. unfold NGot. rewrite default_ws_norm, base_got_plain by exact Hgot. unfold collapse_ws, WG. rewrite Hsame. reflexivity. Qed.
 
   Lemma nwant_words : NWant default_flags W = join [SP] WW.
   Proof.
@@ -322,7 +326,7 @@ Section Pipeline.
     rewrite words_rm_blankline by assumption. reflexivity.
   Qed.
 
-  Lemma same_words : WG = WW -> check_output default_flags got W = true.
+  Lemma same_words : WG = WW -> check_output default_flags got' W = true.
   Proof.
     intros E. apply core_to_check_output.
     - left. rewrite ngot_words, nwant_words, E. reflexivity.
@@ -341,7 +345,7 @@ Section Pipeline.
     (e = true -> contains marker (collapse_ws got) = false) ->  (* a wildcard want: the output holds no '...' itself *)
     (e = true -> n = false -> collapse_ok = true) ->
     std_check_output e n (W ++ [NL]) got = true ->
-    check_output default_flags got W = true.
+    check_output default_flags got' W = true.
   Proof.
     intros Hnm Ht1 Hnoell Hcoll. unfold std_check_output. rewrite Ht1.
     destruct (eqb_str got (W ++ [NL])) eqn:E1.
@@ -390,9 +394,10 @@ Theorem std_output_accepted_partial e n ls got :
   std_check_output e n (join_nl ls ++ [NL]) got = true ->
   check_output default_flags got (join_nl ls) = true.
 Proof.
-  intros Hne HF Hg Hw Hnm Ht Hell Hen. apply (std_output_accepted_gen false); try assumption.
-  - discriminate.
-  - intros He Hn. rewrite (Hen He) in Hn. discriminate Hn.
+  intros Hne HF Hg Hw Hnm Ht Hell Hen.
+  assert (K : false = true -> forall g w, EllMatch g w -> EllMatch (collapse_ws g) (collapse_ws w)) by discriminate.
+  apply (std_output_accepted_gen false K e n ls got Hne HF Hw got Hg eq_refl); try assumption.
+  intros He Hn. rewrite (Hen He) in Hn. discriminate Hn.
 Qed.
 
 (* the hypotheses can be met, with a marker line in the want and blanks that differ *)
